@@ -69,12 +69,13 @@ theorem xonly_onRetO (g : G) (h : Nat) (hg : XOnly g) : XOnly (g.onRetO h) := by
   exact h2 _ (h1 _ h0)
 
 theorem xonly_of_reach (M : Machine St Loc α β) : ∀ s, SReach M s → XOnly s.g := by
+  show ∀ s, SReachR M anyEnv s → XOnly s.g
   intro s hs
   induction hs with
   | init => intro v hv; simp [Sys.init] at hv
   | @step a b _ hab ih =>
     cases hab with
-    | env h =>
+    | env h _ =>
       cases h with
       | call i hc hl => exact xonly_onIn _ _ _ ih
       | ret hl => exact ih
